@@ -31,6 +31,7 @@ import (
 	"os"
 	"path/filepath"
 	"sort"
+	"strconv"
 	"strings"
 )
 
@@ -72,6 +73,161 @@ func constOf(info *types.Info, e ast.Expr) (string, bool) {
 		return tv.Value.ExactString(), true
 	}
 	return "", false
+}
+
+// addCase records the cells `keys... -> res` of one table row; an error-returning row is skipped.
+func addCase(info *types.Info, t *table, keys []ast.Expr, results []ast.Expr) bool {
+	if len(results) != 2 {
+		return false
+	}
+	if id, ok := results[1].(*ast.Ident); !ok || id.Name != "nil" {
+		return true // an error-returning case: not part of the table
+	}
+	rv, ok := constOf(info, results[0])
+	if !ok {
+		return false
+	}
+	for _, ce := range keys {
+		cv, ok := constOf(info, ce)
+		if !ok {
+			return false
+		}
+		t.cells = append(t.cells, cell{exprName(ce), exprName(results[0]), cv, rv})
+	}
+	return true
+}
+
+// eqKeys: `p == C` or `p == C1 || p == C2 || …` (either operand order) → the constants.
+func eqKeys(e ast.Expr, param string) ([]ast.Expr, bool) {
+	switch x := e.(type) {
+	case *ast.ParenExpr:
+		return eqKeys(x.X, param)
+	case *ast.BinaryExpr:
+		if x.Op == token.LOR {
+			a, ok1 := eqKeys(x.X, param)
+			b, ok2 := eqKeys(x.Y, param)
+			return append(a, b...), ok1 && ok2
+		}
+		if x.Op == token.EQL {
+			if id, ok := x.X.(*ast.Ident); ok && id.Name == param {
+				return []ast.Expr{x.Y}, true
+			}
+			if id, ok := x.Y.(*ast.Ident); ok && id.Name == param {
+				return []ast.Expr{x.X}, true
+			}
+		}
+	}
+	return nil, false
+}
+
+// pkgMaps: package-level `var m = map[K]V{C: V, …}` literals by name.
+func pkgMaps(info *types.Info, files []*ast.File) map[string]*ast.CompositeLit {
+	m := map[string]*ast.CompositeLit{}
+	for _, f := range files {
+		for _, d := range f.Decls {
+			gd, ok := d.(*ast.GenDecl)
+			if !ok || gd.Tok != token.VAR {
+				continue
+			}
+			for _, sp := range gd.Specs {
+				vs := sp.(*ast.ValueSpec)
+				for i, n := range vs.Names {
+					if i < len(vs.Values) {
+						if cl, ok := vs.Values[i].(*ast.CompositeLit); ok {
+							if _, ok := cl.Type.(*ast.MapType); ok {
+								m[n.Name] = cl
+							}
+						}
+					}
+				}
+			}
+		}
+	}
+	return m
+}
+
+func tableCells(info *types.Info, maps map[string]*ast.CompositeLit, fd *ast.FuncDecl, param string, t *table) bool {
+	body := fd.Body.List
+	// (a) a single switch on the parameter
+	if len(body) == 1 {
+		if sw, ok := body[0].(*ast.SwitchStmt); ok {
+			tag, ok := sw.Tag.(*ast.Ident)
+			if sw.Init != nil || sw.Tag == nil || !ok || tag.Name != param {
+				return false
+			}
+			for _, c := range sw.Body.List {
+				cc := c.(*ast.CaseClause)
+				if cc.List == nil { // default
+					continue
+				}
+				if len(cc.Body) != 1 {
+					return false
+				}
+				rs, ok := cc.Body[0].(*ast.ReturnStmt)
+				if !ok || !addCase(info, t, cc.List, rs.Results) {
+					return false
+				}
+			}
+			return true
+		}
+	}
+	// (b) lookup in a package-level map literal: `v, ok := m[p]; if !ok { return …, err }; return v, nil`
+	if len(body) == 3 {
+		if as, ok := body[0].(*ast.AssignStmt); ok && len(as.Lhs) == 2 && len(as.Rhs) == 1 {
+			if ix, ok := as.Rhs[0].(*ast.IndexExpr); ok {
+				mid, ok1 := ix.X.(*ast.Ident)
+				kid, ok2 := ix.Index.(*ast.Ident)
+				if ok1 && ok2 && kid.Name == param && maps[mid.Name] != nil {
+					rs, ok := body[2].(*ast.ReturnStmt)
+					v, okv := as.Lhs[0].(*ast.Ident)
+					if !ok || !okv || len(rs.Results) != 2 {
+						return false
+					}
+					if r0, ok := rs.Results[0].(*ast.Ident); !ok || r0.Name != v.Name {
+						return false
+					}
+					if r1, ok := rs.Results[1].(*ast.Ident); !ok || r1.Name != "nil" {
+						return false
+					}
+					if _, ok := body[1].(*ast.IfStmt); !ok {
+						return false
+					}
+					for _, el := range maps[mid.Name].Elts {
+						kv, ok := el.(*ast.KeyValueExpr)
+						if !ok || !addCase(info, t, []ast.Expr{kv.Key}, []ast.Expr{kv.Value, ast.NewIdent("nil")}) {
+							return false
+						}
+					}
+					return true
+				}
+			}
+		}
+	}
+	// (c) an if-chain `if p == C { return V, nil }` … ending in a return
+	if len(body) >= 2 {
+		for i, st := range body {
+			if i == len(body)-1 {
+				rs, ok := st.(*ast.ReturnStmt)
+				if !ok {
+					return false
+				}
+				return addCase(info, t, nil, rs.Results) || len(rs.Results) == 2
+			}
+			is, ok := st.(*ast.IfStmt)
+			if !ok || is.Init != nil || is.Else != nil || len(is.Body.List) != 1 {
+				return false
+			}
+			keys, ok := eqKeys(is.Cond, param)
+			if !ok {
+				return false
+			}
+			rs, ok := is.Body.List[0].(*ast.ReturnStmt)
+			if !ok || !addCase(info, t, keys, rs.Results) {
+				return false
+			}
+		}
+	}
+	return false
 }
 
 func enumTables(out string) {
@@ -116,23 +272,16 @@ func enumTables(out string) {
 			}
 			for _, d := range f.Decls {
 				fd, ok := d.(*ast.FuncDecl)
-				if !ok || fd.Recv != nil || fd.Body == nil || len(fd.Body.List) != 1 {
-					continue
-				}
-				sw, ok := fd.Body.List[0].(*ast.SwitchStmt)
-				if !ok || sw.Init != nil || sw.Tag == nil {
+				if !ok || fd.Recv != nil || fd.Body == nil || len(fd.Body.List) == 0 {
 					continue
 				}
 				if fd.Type.Params == nil || len(fd.Type.Params.List) != 1 || len(fd.Type.Params.List[0].Names) != 1 {
 					continue
 				}
-				tag, ok := sw.Tag.(*ast.Ident)
-				if !ok || tag.Name != fd.Type.Params.List[0].Names[0].Name {
-					continue
-				}
 				if fd.Type.Results == nil || len(fd.Type.Results.List) != 2 {
 					continue
 				}
+				param := fd.Type.Params.List[0].Names[0].Name
 				t := table{pkg: dir, fn: fd.Name.Name}
 				if tv, ok := info.Types[fd.Type.Params.List[0].Type]; ok {
 					t.paramTy = tv.Type.String()
@@ -140,39 +289,10 @@ func enumTables(out string) {
 				if tv, ok := info.Types[fd.Type.Results.List[0].Type]; ok {
 					t.resTy = tv.Type.String()
 				}
-				shape := true
-				for _, c := range sw.Body.List {
-					cc := c.(*ast.CaseClause)
-					if cc.List == nil { // default
-						continue
-					}
-					if len(cc.Body) != 1 {
-						shape = false
-						break
-					}
-					rs, ok := cc.Body[0].(*ast.ReturnStmt)
-					if !ok || len(rs.Results) != 2 {
-						shape = false
-						break
-					}
-					if id, ok := rs.Results[1].(*ast.Ident); !ok || id.Name != "nil" {
-						// an error-returning case: not part of the table
-						continue
-					}
-					rv, ok := constOf(info, rs.Results[0])
-					if !ok {
-						shape = false
-						break
-					}
-					for _, ce := range cc.List {
-						cv, ok := constOf(info, ce)
-						if !ok {
-							shape = false
-							break
-						}
-						t.cells = append(t.cells, cell{exprName(ce), exprName(rs.Results[0]), cv, rv})
-					}
-				}
+				// The same table can be written as a switch on the parameter, as a chain of
+				// `if p == C { return V, nil }` statements, or as a lookup in a package-level map
+				// literal; all three give the same cells (the extractor must not depend on which).
+				shape := tableCells(info, pkgMaps(info, astFiles), fd, param, &t)
 				if !shape || len(t.cells) == 0 {
 					continue
 				}
@@ -202,6 +322,12 @@ func enumTables(out string) {
 				die("%s.%s: negative enum value", t.pkg, t.fn)
 			}
 		}
+		// canonical cell order (by case value): the order of the cases in the source is irrelevant
+		sort.SliceStable(t.cells, func(a, b int) bool {
+			x, _ := strconv.Atoi(t.cells[a].caseVal)
+			y, _ := strconv.Atoi(t.cells[b].caseVal)
+			return x < y
+		})
 		sb.WriteString(fmt.Sprintf("  -- %s → %s\n", t.paramTy, t.resTy))
 		sb.WriteString(fmt.Sprintf("  { pkg := %q, fn := %q, pkgId := %d, paramTyId := %d, resTyId := %d, protoParam := %v, protoRes := %v, prefixRes := %v, cells := [",
 			t.pkg, t.fn, idOf("pkg:"+t.pkg), idOf(t.paramTy), idOf(t.resTy), strings.HasPrefix(t.paramTy, protoPfx), strings.HasPrefix(t.resTy, protoPfx),
